@@ -341,6 +341,138 @@ fn canonical_unordered(n: &Node) -> String {
     format!("<{} {:?} {:?} {:?}>{}", n.name, n.attrs, n.comment, texts, kids.join(""))
 }
 
+
+// ------------------------------------------------------------------------------------------------ comparator axioms
+
+/// every identifier of up to `max_len` characters over {a, b, 0, 1, 2, _} plus names with long and extreme digit runs
+fn name_universe(max_len: usize) -> Vec<String> {
+    let first = ['a', 'b'];
+    let rest = ['a', 'b', '0', '1', '2', '_'];
+    let mut out: Vec<String> = vec![];
+    let mut layer: Vec<String> = first.iter().map(|c| c.to_string()).collect();
+    for _ in 1..=max_len {
+        out.extend(layer.iter().cloned());
+        let mut next = vec![];
+        for s in &layer {
+            for c in rest {
+                next.push(format!("{s}{c}"));
+            }
+        }
+        layer = next;
+    }
+    for extra in [
+        "a20", "a100", "a009", "a010", "a0000000000000000001", "a18446744073709551614", "a18446744073709551615", "a18446744073709551616", "a99999999999999999999",
+        "a184467440737095516150000", "a1_18446744073709551616", "b00000000000000000000000000000000000000001", "A1", "A", "a1B2", "a12b", "a1b2",
+    ] {
+        out.push(extra.to_string());
+    }
+    out.sort();
+    out.dedup();
+    out
+}
+
+/// `Element::cmp` decides every sort. On a universe of elements (all short names; containers with every combination of
+/// name and INDEX text) the complete comparison matrix is computed with the real elements and checked to be a total
+/// preorder in which only identical keys compare equal: reflexive, antisymmetric, transitive. A comparator with these
+/// properties makes the result of a sort independent of the previous order; one without them does not.
+pub fn comparator_axioms(ctx: &Ctx, tier: Tier) -> u64 {
+    use std::cmp::Ordering as O;
+    let m = AutosarModel::new();
+    let _ = m.create_file("cmp.arxml", V);
+    let pkgs = m.root_element().create_sub_element(ElementName::ArPackages).unwrap();
+    let mut universe: Vec<(String, Element)> = vec![];
+    // (1) packages with every name
+    for n in name_universe(tier.pick(3, 4)) {
+        match pkgs.create_named_sub_element(ElementName::ArPackage, &n) {
+            Ok(e) => universe.push((format!("AR-PACKAGE {n}"), e)),
+            Err(e) => ctx.machinery_error(format!("comparator universe: cannot create package {n}: {e}")),
+        }
+    }
+    let n_names = universe.len();
+    // (2) containers: name x INDEX text, one parent per INDEX variant so that names may repeat
+    let host = pkgs.create_named_sub_element(ElementName::ArPackage, "zhost").unwrap().create_sub_element(ElementName::Elements).unwrap();
+    let mut containers: Vec<(String, Element)> = vec![];
+    let index_texts: [Option<&str>; 9] = [None, Some("0"), Some("1"), Some("2"), Some("10"), Some("0x2"), Some("02"), Some("0b10"), Some("18446744073709551615")];
+    for (k, idx) in index_texts.iter().enumerate() {
+        let cfg = host.create_named_sub_element(ElementName::EcucModuleConfigurationValues, &format!("cfg{k}")).unwrap();
+        let cs = cfg.create_sub_element(ElementName::Containers).unwrap();
+        for n in ["a1", "a2", "a10", "a1b", "b"] {
+            let c = cs.create_named_sub_element(ElementName::EcucContainerValue, n).unwrap();
+            if let Some(t) = idx {
+                if let Err(e) = c.create_sub_element(ElementName::Index).and_then(|i| i.set_character_data(*t)) {
+                    ctx.machinery_error(format!("comparator universe: INDEX {t}: {e}"));
+                }
+            }
+            containers.push((format!("ECUC-CONTAINER-VALUE {n} index={idx:?}"), c));
+        }
+    }
+    let mut evals = 0u64;
+    for (what, uni) in [("names", &universe), ("containers-with-index", &containers)] {
+        let n = uni.len();
+        // the matrix, row by row in parallel (each comparison takes read locks only)
+        let rows: Vec<Vec<i8>> = uni
+            .par_iter()
+            .map(|(la, a)| {
+                uni.iter()
+                    .map(|(lb, b)| match guarded(|| a.cmp(b)) {
+                        Ok(O::Less) => -1,
+                        Ok(O::Equal) => 0,
+                        Ok(O::Greater) => 1,
+                        Err(msg) => {
+                            ctx.violation(format!("comparator|{what}|cmp-panics|{}", last_panic_loc()), json!({"kind": "cmp", "a": la, "b": lb, "msg": msg}));
+                            2
+                        }
+                    })
+                    .collect()
+            })
+            .collect();
+        evals += (n * n) as u64;
+        for i in 0..n {
+            if rows[i][i] != 0 && rows[i][i] != 2 {
+                ctx.violation(format!("comparator|{what}|not-reflexive"), json!({"kind": "cmp", "a": uni[i].0}));
+            }
+            for j in 0..n {
+                if rows[i][j] == 2 || rows[j][i] == 2 {
+                    continue;
+                }
+                if rows[i][j] != -rows[j][i] {
+                    ctx.violation(format!("comparator|{what}|not-antisymmetric"), json!({"kind": "cmp", "a": uni[i].0, "b": uni[j].0, "a_cmp_b": rows[i][j], "b_cmp_a": rows[j][i]}));
+                }
+                if i != j && rows[i][j] == 0 && what == "names" {
+                    ctx.violation(format!("comparator|{what}|distinct-names-compare-equal"), json!({"kind": "cmp", "a": uni[i].0, "b": uni[j].0}));
+                }
+            }
+        }
+        // transitivity of <= over all triples
+        let bad: Vec<(usize, usize, usize)> = (0..n)
+            .into_par_iter()
+            .filter_map(|i| {
+                for j in 0..n {
+                    if rows[i][j] > 0 || rows[i][j] == 2 {
+                        continue;
+                    }
+                    for k in 0..n {
+                        if rows[j][k] <= 0 && rows[i][k] == 1 {
+                            return Some((i, j, k));
+                        }
+                    }
+                }
+                None
+            })
+            .collect();
+        evals += (n * n * n) as u64;
+        if let Some((i, j, k)) = bad.iter().min_by_key(|(i, j, k)| uni[*i].0.len() + uni[*j].0.len() + uni[*k].0.len()) {
+            ctx.violation(
+                format!("comparator|{what}|not-transitive"),
+                json!({"kind": "cmp", "a<=b<=c but a>c": [uni[*i].0.clone(), uni[*j].0.clone(), uni[*k].0.clone()], "triples_starting_points": bad.len()}),
+            );
+        }
+    }
+    ctx.count("comparator_universe_names", n_names as u64);
+    ctx.count("comparator_universe_containers", containers.len() as u64);
+    evals
+}
+
 pub fn run(tier: Tier) -> i32 {
     let ctx = Ctx::new("C14", tier);
     let perms_run = AtomicU64::new(0);
@@ -398,7 +530,8 @@ pub fn run(tier: Tier) -> i32 {
         ctx.outcome(format!("{}:{}", s.name, failing.lock().unwrap().len()));
     }
     let n = perms_run.load(Ordering::Relaxed);
-    ctx.eval(n);
+    let cmp_evals = comparator_axioms(&ctx, tier);
+    ctx.eval(n + cmp_evals);
     ctx.count("multisets", sets_run.load(Ordering::Relaxed));
     ctx.count("permutations", n);
     ctx.sample(json!({"scenario": "packages", "siblings": ["a2", "a10", "a1b"], "permutations": 6}));
